@@ -583,6 +583,155 @@ func main() {
 		lag("3-node cluster", c3, 3, false)
 		lag("3-node cluster", c3, 2, true)
 	}
+	// Snapshots: a second three-node cluster takes a snapshot every 25 applied entries and keeps 3 entries behind it.
+	// Programs of every value type accumulate state (no reset in between); one replica is killed, misses more than the
+	// log keeps, comes back (its own snapshot + what the leader sends it), and finally all replicas are killed and
+	// restarted. Every replica must then hold the standalone server's keyspace: what a snapshot stores and restores
+	// is every key, value and deadline, unchanged.
+	snapCompared, snapSkipped, snapCmds := 0, 0, 0
+	if len(bySig) == 0 {
+		func() {
+			c3s, err := cluster.New(filepath.Join(o.Work, "c3s"), 3, false, []string{"VERIF_SNAPCOUNT=25", "VERIF_CATCHUP=3"})
+			if err != nil {
+				return
+			}
+			defer c3s.Stop()
+			if err := c3s.StartAll(); err != nil || !c3s.WaitAllWritable(90*time.Second) {
+				snapSkipped++
+				return
+			}
+			reset(ca)
+			down := map[int]bool{}
+			var trace [][]string
+			uncertain := false
+			run := func(nProg int, seedOff int64) {
+				conns := map[int]*respc.Client{}
+				defer func() {
+					for _, c := range conns {
+						c.Close()
+					}
+				}()
+				for p := 0; p < nProg && !uncertain; p++ {
+					r := rand.New(rand.NewSource(o.Seed*1000003 + seedOff + int64(p)))
+					for i, cmd := range gen.Program(r, gen.FCluster, 24) {
+						nm := strings.ToUpper(string(cmd[0]))
+						if excluded(nm, cmd) != "" {
+							continue
+						}
+						id := i%3 + 1
+						for down[id] {
+							id = id%3 + 1
+						}
+						conn := conns[id]
+						if conn == nil {
+							c, err := respc.Dial(c3s.Nodes[id-1].Addr(), 30*time.Second)
+							if err != nil {
+								uncertain = true
+								return
+							}
+							c.Timeout = 8 * time.Second
+							conns[id], conn = c, c
+						}
+						trace = append(trace, quote(cmd))
+						vc, errc := conn.DoB(cmd)
+						if errc != nil {
+							uncertain = true // a proposal dropped during a leader change is never answered: effect unknown
+							return
+						}
+						va, erra := ca.DoB(cmd)
+						if erra != nil {
+							fail("standalone connection failed: " + erra.Error())
+						}
+						cmds++
+						snapCmds++
+						if normalise(nm, va) != normalise(nm, vc) {
+							report(witness{Kind: "reply", Detail: fmt.Sprintf("3-node cluster with snapshots: %v\n standalone: %s\n cluster:    %s", quote(cmd), va.String(), vc.String()), Program: trace, Sig: "reply|snapshots|" + nm})
+							uncertain = true
+							return
+						}
+					}
+				}
+			}
+			compareAll := func(label string) {
+				wantDump, err := dumpOf(ca)
+				if err != nil {
+					fail("standalone dump: " + err.Error())
+				}
+				for _, nd := range c3s.Nodes {
+					conn, err := respc.Dial(nd.Addr(), 30*time.Second)
+					if err != nil {
+						report(witness{Kind: "crash", Detail: fmt.Sprintf("3-node cluster with snapshots, %s: node %d is not reachable: %v %s", label, nd.ID, err, nd.Srv.CrashLine()), Sig: "crash|snapshots|" + label})
+						continue
+					}
+					conn.Timeout = 30 * time.Second
+					if _, err := conn.Do("SET", "__ready:barrier", label); err != nil {
+						report(witness{Kind: "no-reply", Detail: fmt.Sprintf("3-node cluster with snapshots, %s: node %d: barrier write failed: %v", label, nd.ID, err), Sig: "no-reply|barrier"})
+						conn.Close()
+						continue
+					}
+					got, err := dumpOf(conn)
+					conn.Close()
+					if err != nil {
+						report(witness{Kind: "state", Detail: fmt.Sprintf("node %d: dump failed: %v", nd.ID, err), Sig: "state|dump-failed"})
+						continue
+					}
+					snapCompared++
+					tail := trace
+					if len(tail) > 60 {
+						tail = tail[len(tail)-60:]
+					}
+					compareDumps(fmt.Sprintf("3-node cluster with snapshots every 25 entries, node %d, %s", nd.ID, label), wantDump, got, tail)
+				}
+			}
+			run(4, 2000000)
+			victim := 1 + int(o.Seed)%3
+			c3s.Kill(victim)
+			down[victim] = true
+			for id := 1; id <= 3; id++ {
+				if !down[id] && !c3s.WaitWritable(id, 60*time.Second) {
+					uncertain = true
+				}
+			}
+			run(4, 2100000)
+			if err := c3s.StartNode(victim); err != nil {
+				report(witness{Kind: "crash", Detail: fmt.Sprintf("3-node cluster with snapshots: node %d does not restart: %v\n%s", victim, err, c3s.NodeLog(victim, 3000)), Sig: "crash|snapshots|restart failed"})
+				return
+			}
+			down[victim] = false
+			if !c3s.WaitAllWritable(240 * time.Second) {
+				if len(c3s.Alive()) < 3 {
+					report(witness{Kind: "crash", Detail: fmt.Sprintf("3-node cluster with snapshots: a node exited after node %d came back: %v", victim, c3s.CrashLines()), Sig: "crash|snapshots|node exited"})
+					return
+				}
+				snapSkipped++
+				return
+			}
+			run(2, 2200000)
+			if uncertain {
+				snapSkipped++
+				return
+			}
+			compareAll("after a replica missed more than the log keeps")
+			for _, nd := range c3s.Nodes {
+				c3s.Kill(nd.ID)
+			}
+			for _, nd := range c3s.Nodes {
+				if err := c3s.StartNode(nd.ID); err != nil {
+					report(witness{Kind: "crash", Detail: fmt.Sprintf("3-node cluster with snapshots: node %d does not restart from its snapshot and log: %v\n%s", nd.ID, err, c3s.NodeLog(nd.ID, 3000)), Sig: "crash|snapshots|restart failed"})
+					return
+				}
+			}
+			if !c3s.WaitAllWritable(240 * time.Second) {
+				if len(c3s.Alive()) < 3 {
+					report(witness{Kind: "crash", Detail: fmt.Sprintf("3-node cluster with snapshots: a node exited after the full restart: %v", c3s.CrashLines()), Sig: "crash|snapshots|node exited"})
+					return
+				}
+				snapSkipped++
+				return
+			}
+			compareAll("after all replicas were killed and restarted")
+		}()
+	}
 	// the cluster command filter must reject exactly PUBLISH/SUBSCRIBE, in any letter case
 	for _, w := range []string{"publish", "PUBLISH", "PubLish", "subscribe", "SUBSCRIBE"} {
 		args := []string{w, "ch", "m"}
@@ -647,6 +796,9 @@ func main() {
 			"concurrent_rounds":                         batchRounds,
 			"concurrent_commands":                       batchCmds,
 			"lagging_or_restarted_replicas_compared":    replays,
+			"snapshot_phase_commands":                   snapCmds,
+			"snapshot_phase_replica_dumps_compared":     snapCompared,
+			"snapshot_phase_skipped_open_command":       snapSkipped,
 			"lagging_or_restarted_skipped_open_command": lagSkipped,
 			"known_finding_hits":                        knownHits,
 			"violation_samples":                         vs,
